@@ -493,7 +493,23 @@ def check_batches(ctx):
                 okv = v.k == "call" and any(path_matches(v.extra, w) for w in ("SkipMap::lower_bound", "SkipMap::front", "Entry::next"))
                 ctx.check(okv, inst, "PIN", b.path, "the cursor is only ever the resume position, the front, or the direct successor of the entry just taken", b.where(d), {"value": v.show()[:80]})
         cap = A.pred_switches(b, lambda e: e.k == "bin" and e.extra == "Lt" and e.has_call("Vec::len") and e.has_const(name="MIGRATION_SCAN_RECORDS"))
-        ctx.check(len(cap) == 1, inst, "PIN", b.path, "a batch holds at most MIGRATION_SCAN_RECORDS records", None)
+        # ... or the loop is `for _ in 0..MIGRATION_SCAN_RECORDS` and every push lies behind the Some edge of that range's next()
+        def _bounded_range(e):
+            seen = list(e.walk())
+            tr_ = A.tracer(b)
+            for y in list(seen):
+                if y.k == "local":          # the iterator lives in a mutably borrowed local: look at what it was initialised with
+                    for d_ in b.defs.get(y.extra, []):
+                        seen += list(tr_.node_value(d_).walk())
+            return any(x.k == "agg" and str(x.extra).rsplit("::", 1)[-1] == "Range" and len(x.a) == 2 and x.a[0].k == "const" and (x.a[0].extra or {}).get("val") == 0 and
+                       x.a[1].k == "const" and x.a[1].has_const(name="MIGRATION_SCAN_RECORDS") for x in seen)
+        rng_next = [n.id for n in b.calls() if R.call_matches(n.ev, "Iterator::next") and _bounded_range(R.recv_expr(b, n))]
+        if not cap and len(rng_next) == 1:
+            R.guard(ctx, inst, b, ps, R.guard_edges_for_call(b, rng_next, "Some"), "a batch holds at most MIGRATION_SCAN_RECORDS records (one push per step of 0..MIGRATION_SCAN_RECORDS)")
+            r_, _ = A.reach(b, [x for p_ in ps for x in A.succs(b, p_)], blocked_nodes=set(rng_next), sensitive=False)
+            ctx.check(not any(p_ in r_ for p_ in ps), inst, "PIN", b.path, "at most one record is taken per step of the bounded range", None)
+        else:
+            ctx.check(len(cap) == 1, inst, "PIN", b.path, "a batch holds at most MIGRATION_SCAN_RECORDS records", None)
     for fn in ("migration::source_layout", "migration::copy_records", "migration::verify_records"):
         c = ctx.fn(fn, inst)
         if c is None:
